@@ -330,7 +330,7 @@ class MarketRun:
 def gen_history(rng, n_ops, profile=None):
     """one structured, mostly valid history.  All choices from `rng`."""
     profile = profile or rng.choice(["continuous", "continuous", "batch", "mixed", "marketheavy",
-                                     "deep", "expiry", "sweep"])
+                                     "deep", "expiry", "sweep", "sweep", "sweep"])
     if profile == "sweep":
         return gen_sweep(rng, n_ops)
     tick = rng.choice([1.0, 1.0, 0.5, 0.25, 0.1, 0.01, 10.0])
@@ -410,9 +410,11 @@ def gen_sweep(rng, n_ops):
     cfg = {"tick": tick, "price": base, "fund0": base, "profile": "sweep"}
     ops = [{"op": "run", "on": True}]
     rest_buy = rng.random() < 0.5           # side of the resting book
-    depth = rng.randint(5, 10)
+    depth = rng.randint(5, 14)
     levels = list(range(1, depth + 1))
     rng.shuffle(levels)
+    if rng.random() < 0.5:
+        levels = [rng.randint(1, max(2, depth // 2)) for _ in range(depth)]     # price ties
     n = 0
     for lv in levels:
         px = base - lv * tick if rest_buy else base + lv * tick
@@ -423,9 +425,10 @@ def gen_sweep(rng, n_ops):
             ops.append({"op": "add", "agent": rng.randint(0, 3), "buy": rest_buy, "price": px,
                         "vol": 1, "ttl": None})
             n += 1
-    for _ in range(rng.randint(1, 3)):
+    for _ in range(rng.randint(1, 5)):
         ops.append({"op": "cancel", "ref": rng.randint(0, n - 1)})
-        ops.append({"op": "exec"})
+        if rng.random() < 0.5:
+            ops.append({"op": "exec"})
     if rng.random() < 0.3:
         ops.append({"op": "tick", "fund": base})
     batch = rng.random() < 0.4
